@@ -1067,6 +1067,10 @@ func genRecv(r *common.Rand, fid int, seq uint64, flavour int) csmEvent {
 	case 5: // server push carrying this seq
 		e.push = true
 		e.payload = 0
+	case 6: // service error that also carries a reply
+		e.errStatus, e.meta, e.text = true, true, 1+r.Intn(50)
+	case 7: // service error that carries a reply of the wrong type (the best-effort decode fails: this call only)
+		e.errStatus, e.meta, e.text, e.dec = true, true, 1+r.Intn(50), false
 	}
 	return e
 }
@@ -1157,14 +1161,14 @@ func genSchedule(prop string, r *common.Rand) ([]csmCall, []csmEvent) {
 			evs = append(evs, csmEvent{op: op, c: i})
 		case x < 78: // a frame
 			var seq uint64 = 7777
-			flavour := []int{0, 0, 0, 0, 1, 2, 3, 4, 5}[r.Intn(9)]
+			flavour := []int{0, 0, 0, 0, 1, 2, 3, 4, 5, 6, 7}[r.Intn(11)]
 			if r.Chance(80) {
 				i := r.Intn(n)
 				if s, ok := seqOf(i); ok {
 					seq = s
 				}
 			}
-			if calls[0].kind == 'R' && (flavour == 1) {
+			if calls[0].kind == 'R' && (flavour == 1 || flavour == 6 || flavour == 7) {
 				flavour = 0
 			}
 			evs = append(evs, genRecv(r, fid, seq, flavour))
@@ -1327,7 +1331,7 @@ func runCSM(prop string, r *common.Rand, tier string, o *common.Out, replay stri
 	}
 	if prop == "C06" {
 		// exhaustive: victim first / later x aggressor behaviour x order of the aggressor's step and the victim's response
-		aggr := []string{"ctx-before-reg", "ctx-after-reg", "ctx-after-write", "encfail", "mistyped", "oneway", "svcerr", "unknown-codec", "wfail", "expired-deadline"}
+		aggr := []string{"ctx-before-reg", "ctx-after-reg", "ctx-after-write", "encfail", "mistyped", "oneway", "svcerr", "svcerr-mistyped", "unknown-codec", "wfail", "expired-deadline"}
 		for _, victimFirst := range []bool{true, false} {
 			for _, a := range aggr {
 				for order := 0; order < 3; order++ {
@@ -1376,6 +1380,8 @@ func runCSM(prop string, r *common.Rand, tier string, o *common.Out, replay stri
 						afr = []csmEvent{genRecv(r, 50, 0, 2)}
 					case "svcerr":
 						afr = []csmEvent{genRecv(r, 50, 0, 1)}
+					case "svcerr-mistyped":
+						afr = []csmEvent{genRecv(r, 50, 0, 7)}
 					case "unknown-codec":
 						afr = []csmEvent{genRecv(r, 50, 0, 3)}
 					}
